@@ -80,19 +80,27 @@ structure ClassTyped (P : Prog) (tm : Recs) (c : Nat) (cd : ClassDef) : Prop whe
   over : ∀ m fd, (m, fd) ∈ cd.methods → overrideCheck P (cd.mro.drop 1) m fd = true
   /-- names the class does not define: first definer against the later ones (multiple inheritance) -/
   mi : ∀ m, m ∈ methNames P (cd.mro.drop 1) → miMethOk P cd.methods (cd.mro.drop 1) m = true
+  /-- a `__bool__` method takes no argument and returns bool -/
+  boolSig : ∀ fd, (boolMeth, fd) ∈ cd.methods → fd.params = [] ∧ fd.ret = [.bool]
 
 theorem ClassTyped.mono {P : Prog} {tm tm' : Recs} {c : Nat} {cd : ClassDef} (h : ClassTyped P tm c cd)
     (hs : ∀ x ∈ tm, x ∈ tm') : ClassTyped P tm' c cd := by
-  obtain ⟨⟨r, h1, h2⟩, hm, ho, hmi⟩ := h
-  exact ⟨⟨r, h1, fun x hx => hs x (h2 x hx)⟩, fun m fd h => (hm m fd h).mono hs, ho, hmi⟩
+  obtain ⟨⟨r, h1, h2⟩, hm, ho, hmi, hb⟩ := h
+  exact ⟨⟨r, h1, fun x hx => hs x (h2 x hx)⟩, fun m fd h => (hm m fd h).mono hs, ho, hmi, hb⟩
 
 theorem tcClass_ok {P : Prog} {c : Nat} {cd : ClassDef} {recs : Recs} (h : tcClass P c cd = .ok recs) :
     ClassTyped P recs c cd := by
   unfold tcClass at h
   simp only [bind_ok, pure_ok, req_ok] at h
-  obtain ⟨_, _, _, hmi, _, _, r1, h1, r2, h2, hr⟩ := h
+  obtain ⟨_, hbs, _, _, _, hmi, _, _, r1, h1, r2, h2, hr⟩ := h
   subst hr
-  refine ⟨⟨r1, h1, fun x hx => List.mem_append_left _ hx⟩, ?_, ?_, ?_⟩
+  refine ⟨⟨r1, h1, fun x hx => List.mem_append_left _ hx⟩, ?_, ?_, ?_, ?_⟩
+  rotate_left 3
+  · intro fd hfd
+    simp only [boolSigOk, List.all_eq_true] at hbs
+    have := hbs (boolMeth, fd) hfd
+    simp at this
+    exact ⟨this.1, this.2⟩
   · intro m fd hm
     exact (tcMethods_ok _ _ h2 m fd hm).1.mono (fun x hx => List.mem_append_right _ hx)
   · intro m fd hm
